@@ -46,6 +46,8 @@ class Arena(object):
             raise GuardError("window of %d+%d bytes does not fit arena %s" % (n, shift, self.name))
         if place == "E":
             return PAGE + self.size - n - shift
+        if place == "O":                      # like E but one byte away from the guard page: odd start for n % 8 == 0
+            return PAGE + self.size - n - shift - 1
         return PAGE + shift
 
     def view(self, n, place, data=None, shift=0, canary=True):
